@@ -272,6 +272,64 @@ func sub(s schema.Change) string {
 	return fmt.Sprintf("%T", s)
 }
 
+// FoldRestrict: MySQL documents RESTRICT and NO ACTION as the same referential action; a ModifyFK whose only difference is
+// between the two is no change for that dialect. The expectation is corrected from the two states.
+func foldFK(d *Dialect, from, to State, table string, s Change) (Change, bool) {
+	if d.Name != "mysql" || s.K != "ModifyFK" {
+		return s, true
+	}
+	var a, b *Fk
+	for i := range from[table].Fks {
+		if from[table].Fks[i].Name == s.N {
+			a = &from[table].Fks[i]
+		}
+	}
+	for i := range to[table].Fks {
+		if to[table].Fks[i].Name == s.N {
+			b = &to[table].Fks[i]
+		}
+	}
+	if a == nil || b == nil {
+		return s, true
+	}
+	eq := func(x, y string) bool {
+		n := func(v string) string {
+			if v == "RESTRICT" {
+				return "NO ACTION"
+			}
+			return v
+		}
+		return n(x) == n(y)
+	}
+	var f []string
+	for _, fl := range s.F {
+		if fl == "onupdate" && eq(a.OnUpd, b.OnUpd) || fl == "ondelete" && eq(a.OnDel, b.OnDel) {
+			continue
+		}
+		f = append(f, fl)
+	}
+	s.F = f
+	return s, len(f) > 0
+}
+
+// ExpectedFor is Expected with the dialect-specific equivalences applied (needs the two states).
+func ExpectedFor(d *Dialect, from, to State, diff []Change) []string {
+	var adj []Change
+	for _, c := range diff {
+		if c.K == "ModifyTable" {
+			var ch []Change
+			for _, s := range c.Ch {
+				if s2, keep := foldFK(d, from, to, c.T, s); keep {
+					ch = append(ch, s2)
+				}
+			}
+			c.Ch = ch
+		}
+		adj = append(adj, c)
+	}
+	return Expected(d, adj)
+}
+
 // Expected renders the model's change set the same way. Comment changes are dropped for dialects without table comments.
 func Expected(d *Dialect, diff []Change) []string {
 	var out []string
